@@ -142,10 +142,11 @@ class Tree:
         inl.run()
         self.inlined = inl.log
         self._normalise_bodies()
-        self._canonical_locals()
+        if not os.environ.get("VERIF_NO_CANON2"):
+            self._canonical_locals("local_names_norm.json")
 
     def _normalise_bodies(self):
-        from .normalise import inline_aliases, loops_to_comprehensions, positive_ifexps, unroll_literal_loops, updates_to_loops, inline_single_use_temps
+        from .normalise import inline_aliases, loops_to_comprehensions, positive_ifexps, unroll_literal_loops, updates_to_loops, inline_single_use_temps, forward_attr_stores
 
         self.normalised: List[str] = []
         for f in list(self.funcs.values()):
@@ -155,6 +156,7 @@ class Tree:
             unroll_literal_loops(f.node)
             updates_to_loops(f.node)
             inline_single_use_temps(f.node)
+            forward_attr_stores(f.node)
             n = loops_to_comprehensions(f.node)
             # inline_aliases needs many CFG builds: only for functions that have candidate assignments
             names = inline_aliases(f.node, max_rounds=12)
@@ -194,14 +196,14 @@ class Tree:
             self.renamed.append(f"{key}: {mapping}")
         self._canonical_locals()
 
-    def _canonical_locals(self):
+    def _canonical_locals(self, table="local_names.json"):
         import json
 
         spec = Path(__file__).resolve().parent.parent / "spec" / "param_names.json"
         if not spec.exists() or os.environ.get("VERIF_NO_CANON"):
             return
         # local variables: same number of bindings of the same kinds in the same order => positional rename
-        lspec = spec.with_name("local_names.json")
+        lspec = spec.with_name(table)
         if lspec.exists():
             ltable = json.loads(lspec.read_text())
             for key, want in ltable.items():
@@ -217,7 +219,8 @@ class Tree:
                 rest_w = list({w[0]: w for w in reversed(want) if w[0] not in mapping.values()}.values())[::-1]
                 if len(rest_h) == len(rest_w) and [h[1] for h in rest_h] == [w[1] for w in rest_w]:
                     for h, w in zip(rest_h, rest_w):
-                        mapping[h[0]] = w[0]
+                        if h[1] not in ("def", "import"):
+                            mapping[h[0]] = w[0]
                 mapping = {k: v for k, v in mapping.items() if k != v}
                 if not mapping:
                     continue
